@@ -1,10 +1,11 @@
-//@unit c12_flags props=C12 widths=u32
+//@unit c12_flags props=C12,C11 widths=u32
 //@use prelude/head.rs
 
 // LexFlags::try_from(&mut Header): the two conversion macros, each expanded once as a function
 // (the macro arms are the extracted text; `$it` is the destination field, `$num_ty` its type).
 // Decides for C12: converting a %grmtools section to lexer flags never panics -- a value of the
-// wrong kind is a ConversionError at its location, a numeric value of any size is accepted.
+// wrong kind is a ConversionError at its location, and so is a number that does not fit the flag's type (C11: the flag in
+// force is the number written, never a truncated one).
 pub struct Loc { pub _x: usize }
 impl Loc { #[verifier::external_body] pub fn clone(&self) -> (r: Loc) ensures r == *self { unimplemented!() } }
 pub struct Namespaced { pub _x: usize }
@@ -14,7 +15,10 @@ pub struct HeaderValue(pub Loc, pub Value);
 #[derive(PartialEq, Eq, Clone, Copy)]
 pub enum ConvTarget { LexFlags }
 #[derive(PartialEq, Eq, Clone, Copy)]
-pub enum ConvWhy { ExpectedBoolean, ExpectedNumeric }
+pub enum ConvWhy { ExpectedBoolean, ExpectedNumeric, OutOfRange }
+// `<u32>::try_from(n)` / `<usize>::try_from(n)` for n: u64 (checked, lossless)
+pub fn try_u32(n: u64) -> (r: Option<u32>) ensures n <= u32::MAX ==> r == Some(n as u32), n > u32::MAX ==> r is None { if n <= u32::MAX as u64 { Some(n as u32) } else { None } }
+pub fn try_usize(n: u64) -> (r: Option<usize>) ensures n <= usize::MAX ==> r == Some(n as usize), n > usize::MAX ==> r is None { if n <= usize::MAX as u64 { Some(n as usize) } else { None } }
 pub enum HeaderErrorKind { MissingGrmtoolsSection, IllegalName, ExpectedToken(char), UnexpectedToken(char, usize), DuplicateEntry, InvalidEntry(usize), ConversionError(ConvTarget, ConvWhy) }
 pub struct HeaderError { pub kind: HeaderErrorKind, pub locations: Vec<Loc> }
 #[derive(PartialEq, Eq, Clone, Copy)]
@@ -50,7 +54,7 @@ fn cvt_flag(header: &mut Header, name: Key, it: &mut Option<bool>) -> (r: Result
         old(header).has(name) && is_flag(old(header).val(name)) ==> r is Ok && *final(it) == Some(old(header).val(name).1->Flag_0), // OBL: C12.flags.boolean_value_is_taken_as_written
         old(header).has(name) && !is_flag(old(header).val(name)) ==> r is Err && conv_err(r->Err_0, old(header).val(name).0, ConvWhy::ExpectedBoolean), // OBL: C12.flags.wrong_kind_is_a_conversion_error_at_the_value
 {
-    //@body file=lrlex/src/lib/lexer.rs fn=try_from block=`header\.mark_used\(&stringify!\(\$it\)\.to_string\(\)\);` bnth=1 end=`^\s*\}\s*$`
+    //@body file=lrlex/src/lib/lexer.rs fn=try_from block=`header\.mark_used\(&stringify!\(\$it\)\.to_string\(\)\);` bnth=1 end=`^ {16}\}\s*$`
     //@rule n=1 `header\.mark_used\(&stringify!\(\$it\)\.to_string\(\)\);` => `header.mark_used(&name);`
     //@rule n=1 `\*\$it = match header\.get\(stringify!\(\$it\)\) \{` => `*it = match header.get(name) {`
     //@rule n=1 `HeaderErrorKind::ConversionError\("LexFlags", "Expected boolean"\)` => `HeaderErrorKind::ConversionError(ConvTarget::LexFlags, ConvWhy::ExpectedBoolean)`
@@ -63,14 +67,17 @@ fn cvt_num_u32(header: &mut Header, name: Key, it: &mut Option<u32>) -> (r: Resu
     ensures
         final(header).used(name), // OBL: C12.flags.every_converted_key_is_marked_used
         !old(header).has(name) ==> r is Ok && *final(it) is None, // OBL: C12.flags.absent_key_stays_unspecified
-        old(header).has(name) && is_num(old(header).val(name)) ==> r is Ok && *final(it) is Some, // OBL: C12.flags.numeric_value_of_any_size_is_accepted
-        old(header).has(name) && is_num(old(header).val(name)) && num_of(old(header).val(name)) <= u32::MAX ==> *final(it) == Some(num_of(old(header).val(name)) as u32), // OBL: C12.flags.numeric_value_that_fits_is_taken_as_written
+        old(header).has(name) && is_num(old(header).val(name)) && num_of(old(header).val(name)) <= u32::MAX ==> r is Ok && *final(it) == Some(num_of(old(header).val(name)) as u32), // OBL: C12.flags.numeric_value_that_fits_is_taken_as_written C11.flags.numeric_value_that_fits_is_taken_as_written
+        old(header).has(name) && is_num(old(header).val(name)) && num_of(old(header).val(name)) > u32::MAX ==> r is Err && conv_err(r->Err_0, old(header).val(name).0, ConvWhy::OutOfRange), // OBL: C12.flags.numeric_value_that_does_not_fit_is_a_conversion_error C11.flags.numeric_value_that_does_not_fit_is_a_conversion_error
         old(header).has(name) && !is_num(old(header).val(name)) ==> r is Err && conv_err(r->Err_0, old(header).val(name).0, ConvWhy::ExpectedNumeric), // OBL: C12.flags.wrong_kind_is_a_conversion_error_at_the_value
 {
-    //@body file=lrlex/src/lib/lexer.rs fn=try_from block=`header\.mark_used\(&stringify!\(\$it\)\.to_string\(\)\);` bnth=2 end=`^\s*\}\s*$`
+    //@body file=lrlex/src/lib/lexer.rs fn=try_from block=`header\.mark_used\(&stringify!\(\$it\)\.to_string\(\)\);` bnth=2 end=`^ {16}\}\s*$`
     //@rule n=1 `header\.mark_used\(&stringify!\(\$it\)\.to_string\(\)\);` => `header.mark_used(&name);`
     //@rule n=1 `\*\$it = match header\.get\(stringify!\(\$it\)\) \{` => `*it = match header.get(name) {`
-    //@rule n=1 `\$num_ty` => `u32`
+    //@rule n=* `Some\(<\$num_ty>::try_from\(\*n\)\.map_err\(\|_\| HeaderError \{` => `Some(match try_u32(*n) { Some(v_) => v_, None => return Err(HeaderError {`
+    //@rule n=* `HeaderErrorKind::ConversionError\(\s*"LexFlags",\s*"Number out of range",\s*\)` => `HeaderErrorKind::ConversionError(ConvTarget::LexFlags, ConvWhy::OutOfRange)`
+    //@rule n=* `^(\s*)\}\)\?\)$` => `\1}) })`
+    //@rule n=* `\$num_ty` => `u32`
     //@rule n=1 `HeaderErrorKind::ConversionError\("LexFlags", "Expected numeric"\)` => `HeaderErrorKind::ConversionError(ConvTarget::LexFlags, ConvWhy::ExpectedNumeric)`
     //@endbody
     ;
@@ -81,14 +88,17 @@ fn cvt_num_usize(header: &mut Header, name: Key, it: &mut Option<usize>) -> (r: 
     ensures
         final(header).used(name), // OBL: C12.flags.every_converted_key_is_marked_used
         !old(header).has(name) ==> r is Ok && *final(it) is None, // OBL: C12.flags.absent_key_stays_unspecified
-        old(header).has(name) && is_num(old(header).val(name)) ==> r is Ok && *final(it) is Some, // OBL: C12.flags.numeric_value_of_any_size_is_accepted
-        old(header).has(name) && is_num(old(header).val(name)) && num_of(old(header).val(name)) <= usize::MAX ==> *final(it) == Some(num_of(old(header).val(name)) as usize), // OBL: C12.flags.numeric_value_that_fits_is_taken_as_written
+        old(header).has(name) && is_num(old(header).val(name)) && num_of(old(header).val(name)) <= usize::MAX ==> r is Ok && *final(it) == Some(num_of(old(header).val(name)) as usize), // OBL: C12.flags.numeric_value_that_fits_is_taken_as_written C11.flags.numeric_value_that_fits_is_taken_as_written
+        old(header).has(name) && is_num(old(header).val(name)) && num_of(old(header).val(name)) > usize::MAX ==> r is Err && conv_err(r->Err_0, old(header).val(name).0, ConvWhy::OutOfRange), // OBL: C12.flags.numeric_value_that_does_not_fit_is_a_conversion_error C11.flags.numeric_value_that_does_not_fit_is_a_conversion_error
         old(header).has(name) && !is_num(old(header).val(name)) ==> r is Err && conv_err(r->Err_0, old(header).val(name).0, ConvWhy::ExpectedNumeric), // OBL: C12.flags.wrong_kind_is_a_conversion_error_at_the_value
 {
-    //@body file=lrlex/src/lib/lexer.rs fn=try_from block=`header\.mark_used\(&stringify!\(\$it\)\.to_string\(\)\);` bnth=2 end=`^\s*\}\s*$`
+    //@body file=lrlex/src/lib/lexer.rs fn=try_from block=`header\.mark_used\(&stringify!\(\$it\)\.to_string\(\)\);` bnth=2 end=`^ {16}\}\s*$`
     //@rule n=1 `header\.mark_used\(&stringify!\(\$it\)\.to_string\(\)\);` => `header.mark_used(&name);`
     //@rule n=1 `\*\$it = match header\.get\(stringify!\(\$it\)\) \{` => `*it = match header.get(name) {`
-    //@rule n=1 `\$num_ty` => `usize`
+    //@rule n=* `Some\(<\$num_ty>::try_from\(\*n\)\.map_err\(\|_\| HeaderError \{` => `Some(match try_usize(*n) { Some(v_) => v_, None => return Err(HeaderError {`
+    //@rule n=* `HeaderErrorKind::ConversionError\(\s*"LexFlags",\s*"Number out of range",\s*\)` => `HeaderErrorKind::ConversionError(ConvTarget::LexFlags, ConvWhy::OutOfRange)`
+    //@rule n=* `^(\s*)\}\)\?\)$` => `\1}) })`
+    //@rule n=* `\$num_ty` => `usize`
     //@rule n=1 `HeaderErrorKind::ConversionError\("LexFlags", "Expected numeric"\)` => `HeaderErrorKind::ConversionError(ConvTarget::LexFlags, ConvWhy::ExpectedNumeric)`
     //@endbody
     ;
